@@ -91,10 +91,15 @@ fn block<F: std::future::Future>(f: F) -> F::Output {
 
 #[derive(Clone, Debug)]
 pub enum Op { Set(u32), Sub, Poll(usize), Drop(usize), /// the last handle of the state is dropped
-    Close }
+    Close,
+    /// another handle of the state is made (`clone`); later `set`s go through the newest handle
+    CloneState,
+    /// the newest extra handle is dropped (the state itself lives on)
+    DropClone }
 
 fn run_tokio(ops: &[Op]) -> Vec<String> {
     let mut st = Some(zlink_tokio::notified::State::<u32, u32>::new(0));
+    let mut clones: Vec<zlink_tokio::notified::State<u32, u32>> = vec![];
     let mut subs: Vec<Option<zlink_tokio::notified::Stream<u32>>> = vec![];
     let mut meta: Vec<Option<Sub>> = vec![];
     let mut out = vec![];
@@ -102,9 +107,22 @@ fn run_tokio(ops: &[Op]) -> Vec<String> {
         match op {
             Op::Set(v) => {
                 if let Some(st) = st.as_mut() {
-                    block(st.set(*v));
+                    // through the newest handle
+                    match clones.last_mut() {
+                        Some(c) => block(c.set(*v)),
+                        None => block(st.set(*v)),
+                    }
                     wake_report(&mut meta, &mut out);
                 }
+            }
+            Op::CloneState => {
+                if let Some(st) = st.as_ref() {
+                    let c = clones.last().map(|c| c.clone()).unwrap_or_else(|| st.clone());
+                    clones.push(c);
+                }
+            }
+            Op::DropClone => {
+                clones.pop();
             }
             Op::Sub => {
                 if let Some(st) = st.as_mut() {
@@ -126,6 +144,7 @@ fn run_tokio(ops: &[Op]) -> Vec<String> {
             }
             Op::Drop(k) => if let Some(s) = subs.get_mut(*k) { *s = None; meta[*k] = None },
             Op::Close => {
+                clones.clear();
                 if st.take().is_some() {
                     wake_report(&mut meta, &mut out);
                 }
@@ -136,6 +155,7 @@ fn run_tokio(ops: &[Op]) -> Vec<String> {
 }
 fn run_smol(ops: &[Op]) -> Vec<String> {
     let mut st = Some(zlink_smol::notified::State::<u32, u32>::new(0));
+    let mut clones: Vec<zlink_smol::notified::State<u32, u32>> = vec![];
     let mut subs: Vec<Option<zlink_smol::notified::Stream<u32>>> = vec![];
     let mut meta: Vec<Option<Sub>> = vec![];
     let mut out = vec![];
@@ -143,9 +163,22 @@ fn run_smol(ops: &[Op]) -> Vec<String> {
         match op {
             Op::Set(v) => {
                 if let Some(st) = st.as_mut() {
-                    block(st.set(*v));
+                    // through the newest handle
+                    match clones.last_mut() {
+                        Some(c) => block(c.set(*v)),
+                        None => block(st.set(*v)),
+                    }
                     wake_report(&mut meta, &mut out);
                 }
+            }
+            Op::CloneState => {
+                if let Some(st) = st.as_ref() {
+                    let c = clones.last().map(|c| c.clone()).unwrap_or_else(|| st.clone());
+                    clones.push(c);
+                }
+            }
+            Op::DropClone => {
+                clones.pop();
             }
             Op::Sub => {
                 if let Some(st) = st.as_mut() {
@@ -167,6 +200,7 @@ fn run_smol(ops: &[Op]) -> Vec<String> {
             }
             Op::Drop(k) => if let Some(s) = subs.get_mut(*k) { *s = None; meta[*k] = None },
             Op::Close => {
+                clones.clear();
                 if st.take().is_some() {
                     wake_report(&mut meta, &mut out);
                 }
@@ -177,7 +211,7 @@ fn run_smol(ops: &[Op]) -> Vec<String> {
 }
 
 fn ops_str(ops: &[Op]) -> String {
-    ops.iter().map(|o| match o { Op::Set(v) => format!("s{v}"), Op::Sub => "n".into(), Op::Poll(k) => format!("p{k}"), Op::Drop(k) => format!("d{k}"), Op::Close => "x".into() }).collect::<Vec<_>>().join(" ")
+    ops.iter().map(|o| match o { Op::Set(v) => format!("s{v}"), Op::Sub => "n".into(), Op::Poll(k) => format!("p{k}"), Op::Drop(k) => format!("d{k}"), Op::Close => "x".into(), Op::CloneState => "k".into(), Op::DropClone => "j".into() }).collect::<Vec<_>>().join(" ")
 }
 
 fn emit(em: &mut Emitter, ops: Vec<Op>) {
@@ -218,6 +252,7 @@ pub fn main(o: &Opts) {
                 0..=3 => { ops.push(Op::Set(v)); v += 1; }
                 4 if subs < 3 => { ops.push(Op::Sub); subs += 1; }
                 5 if subs > 0 && rng.chance(1, 4) => ops.push(Op::Drop(rng.below(subs))),
+                6 if rng.chance(1, 3) => ops.push(if rng.chance(1, 2) { Op::CloneState } else { Op::DropClone }),
                 _ if subs > 0 => ops.push(Op::Poll(rng.below(subs))),
                 _ => { ops.push(Op::Set(v)); v += 1; }
             }
